@@ -29,6 +29,8 @@ def run(ctx, rep):
     rep.rule("R6.1", "every sink (call that may run user code) is call-graph-dominated by the evaluation routine; dead branches (argument definitely not None at all call sites) removed")
     rep.rule("R6.2", "per evaluation each class of user code is reached at most once: no loop/comprehension on the way (except the loop over distinct prepared constraints), reaching events pairwise CFG-exclusive")
     rep.rule("R6.3", "arguments of the objective/constraint wrappers are full-space points (build_x results)")
+    rep.rule("R6.4", "each direct call of user code receives a private array (fresh allocation in the calling wrapper), so user code cannot change the point seen by the other functions of the same evaluation")
+    rep.rule("R6.5", "wrappers around user constraint functions bind function and arguments when created (no late-bound loop variable)")
     cg = ctx.cg
     live = ctx.facts.live
     E = ctx.func(T.EVAL)
@@ -153,6 +155,30 @@ def run(ctx, rep):
     # ---- R6.3 ---------------------------------------------------------
     from .. import spaces
     spaces.check_sink_spaces(ctx, rep, "R6.3", sinks, classes)
+
+    # ---- R6.4 ---------------------------------------------------------
+    from ..alias import Alias
+    for ev in sinks:
+        if ev.lam is not None:
+            continue
+        names = [t.name for t in ev.sink_targets()]
+        if not any(n in ("UserFn", "UserConFn") for n in names):
+            continue
+        e = common.point_arg(ev)
+        if e is None:
+            continue
+        al = Alias(ctx, ev.func)
+        roots = al.roots(e, e)
+        desc = f"{ev.func.local}:{ev.line} `{norm(e)}` handed to user code"
+        if roots:
+            rep.bad("R6.4", desc)
+            rep.finding("R6.4", ev.func, ev.text(), ev.line,
+                        f"user code receives an array that aliases {sorted(roots)[:3]}: if it modifies its argument, the constraint functions / the solver see a different point than the one evaluated")
+        else:
+            rep.ok("R6.4", desc + " is a private copy")
+
+    # ---- R6.5 ---------------------------------------------------------
+    common.check_closure_capture(ctx, rep, "R6.5")
 
 
 def _reach_avoiding(cg, src, avoid, edge_ok):
